@@ -126,6 +126,21 @@ def run_case(ctx, case, reps) -> None:
         ctx.violation("computer-raised", f"{type(exc).__name__}: {exc} (n={n}, family={case['family']}, K={sorted(K)})", case)
 
 
+def poison_call(ctx, n: int) -> None:
+    """A computation that FAILS (knowledge without the singletons: outside the computers' domain) and is survived by
+    the caller.  It must not influence later, legal computations in the same process."""
+    r = ctx.rng.choice([0, 1, 3, 10])
+    g = sut.new_game(n, sam_computer(r))
+    vals, _ = gen.sam_game(ctx.rng, n, "sam_int")
+    try:
+        sut.set_knowledge(g, vals, [0, (1 << n) - 1] + ctx.rng.sample(gen.explorable(n), min(2, len(gen.explorable(n)))))
+        g.compute_bounds()
+        ctx.count("poison_calls_that_did_not_raise")
+    except Exception:
+        ctx.count("poison_calls_raised")
+    ctx.count("poison_calls")
+
+
 def reps_for(ctx, n: int, quick: bool):
     reps = list(range(0, 11))
     tail = ["1", "10"]
@@ -163,6 +178,8 @@ def run(ctx) -> None:
     ctx.count("exhaustive_K_sweeps_n4_quarter" if quick else "exhaustive_K_sweeps_n4")
     while not ctx.out_of_time(1.5):
         n = rng.choice([3, 4, 4, 5, 5, 6] if quick else [3, 4, 4, 5, 5, 5, 6, 6])
+        if rng.random() < 0.1:
+            poison_call(ctx, n)
         if rng.random() < 0.45:
             fam, values, exact = registered_game(ctx, n)
         else:
